@@ -5,7 +5,7 @@ import GardenVerif.Model.Resume
 * `resume_run <k> <fuel> <astx sexpr>`: run the program, then `:resume` × k; answers
   `OK (resume <obs> <obs> …)` with `<obs>` = `(err <kind-hex> <st>#<id> <pending> <values>)`,
   `(value)`, `(panic <hex>)`, `(unsupported)`, `(out-of-fuel)`.
-* `session_run <fuel> <astx sexpr> <astx sexpr> …`: the inputs of one history (node ids already made
+* `c11_session_run <fuel> <astx sexpr> <astx sexpr> …`: the inputs of one history (node ids already made
   distinct by the harness); answers `OK (session (inc <reply>) (batch <reply>))` with `<reply>` =
   `(value <display-hex>)`, `(novalue)`, `(err <kind-hex> <index>)`, `(panic <hex>)`, `(unsupported <hex>)`,
   `(out-of-fuel)`. -/
@@ -67,7 +67,7 @@ def handle (op : String) (rest : String) : Option String :=
             some ("OK (resume " ++ " ".intercalate (obs.map obsStr) ++ ")")
       | _ => some "ERR bad-sexp"
     | _ => some "ERR args"
-  else if op == "session_run" then
+  else if op == "c11_session_run" then
     match rest.splitOn " " with
     | fuel :: sexpParts =>
       match Sexp.parseAll (" ".intercalate sexpParts) with
